@@ -284,7 +284,9 @@ Step(e, s, rw, sl, ak, ls) ==
          ELSE Res(<<"harness:reply-out-of-turn">>, "reply-out-of-turn", s, rw, sl)
     [] e.ev = "Ret" ->
          LET o == [out |-> e.out, ok |-> e.ok] IN
-         IF s.pc = "cmd"
+         IF s.pc = "cmd" /\ e.out = "cancelled"
+         THEN Res(<<>>, "ret-cancelled-cmd", OnRet(s), rw, sl)   \* the caller gave up between two steps of the call (its patience is its own business)
+         ELSE IF s.pc = "cmd"
          THEN Res(FinishClauses(s, o) \o (IF s.free \/ "cli" \in DOMAIN e THEN <<>> ELSE ReturnClauses(s, e, rw))
                   \o (IF s.op = "get_schedules" /\ ls /\ e.out = "return" /\ ~s.free THEN ReadBackClauses(sl, e.r) ELSE <<>>),
                   "ret-" \o e.out \o "-" \o Expect(s).must \o "-" \o Expect(s).why, OnRet(s), rw, sl)
@@ -295,7 +297,15 @@ Step(e, s, rw, sl, ak, ls) ==
          THEN Res(Cl(e.out # "return" /\ s.arg # "ok", "C03:call-ended-before-login"), "ret-before-login", OnRet(s), rw, sl)
          ELSE IF e.out = "cancelled" /\ s.pc \in {"waitlogin", "waitcmd"}
          THEN Res(<<>>, "ret-cancelled-" \o s.pc, OnRet(s), rw, sl)      \* the caller gave up while waiting; the device never answers that frame
-         ELSE Res(<<"C03:call-ended-while-a-reply-was-pending">>, "ret-out-of-turn", OnRet(s), rw, sl)
+         ELSE IF e.out = "return"
+         THEN Res(<<"C03:call-ended-while-a-reply-was-pending">>, "ret-out-of-turn", OnRet(s), rw, sl)
+         \* the library itself gave up on a device that had not answered yet (a timeout of its own): no statement forbids that,
+         \* except that a state query ends in RuntimeError or not at all (C09).  What it must not do is carry on as if the
+         \* answer were not still to come: the late answer (event Late) then meets the next exchange on this connection, and
+         \* the frame written on the strength of it is a frame written before its own reply came (C03, at that Write).
+         ELSE Res(IF s.op \in StateQueries /\ e.out = "raise" THEN <<"C09:state-query-raised-other-exception">> ELSE <<>>,
+                  "ret-library-gave-up-" \o s.pc, OnRet(s), rw, sl)
+    [] e.ev = "Late" -> Res(<<>>, "late-answer-to-an-abandoned-frame", s, rw, sl)
     [] OTHER -> Res(<<"unknown-event">>, "unknown", s, rw, sl)
 
 FrameCountOk(s) == s.op # "none" => s.n <= MaxCmdFrames(s.op)
